@@ -206,6 +206,63 @@ func c17ParseRun(c *mon.Ctx, i int) {
 				}
 			}
 		}
+		// (3) the same JSON as a schema saved with LF / CRLF / CR line ends and user comments at some
+		// line ends: legal as it stands; with one byte replaced by '?' outside strings the error
+		// belongs to that byte, whatever the line ends are
+		if !hasDuplicateKeys(v) {
+			pretty := model.DocStyle{Pretty: true}.Render(v)
+			lines := strings.Split(pretty, "\n")
+			nl := mon.Pick(r, []string{"\n", "\r\n", "\r", "\r"})
+			var sb strings.Builder
+			shift := make([]int, len(lines)) // decorated offset of the line start minus its plain offset
+			plainOff := 0
+			for li, ln := range lines {
+				shift[li] = sb.Len() - plainOff
+				sb.WriteString(ln)
+				if li < len(lines)-1 {
+					if r.Chance(1, 3) {
+						sb.WriteString(mon.Pick(r, []string{" # c", "# a comment", " #", "\t# x y"}))
+					}
+					sb.WriteString(nl)
+				}
+				plainOff += len(ln) + 1
+			}
+			deco := sb.String()
+			c.Count("parse: schemas with user comments, line ends "+strconv.Quote(nl), 1)
+			c.Eval(1)
+			if o := c17ParseObserve("schema", deco); !o.OK {
+				c.Violate("parse-pos", c17ParseCase{"schema", deco}, "accept", o.String(), "plain JSON with user comments at line ends is refused as a schema")
+			} else {
+				for f := 0; f < 6; f++ {
+					off := r.Intn(len(pretty))
+					t := pretty[:off] + "?" + pretty[off+1:]
+					res := refjson.Check([]byte(t), refjson.Strict)
+					if res.Accept || res.EndedEarly || res.ErrOffset != off || pretty[off] == '\n' {
+						continue
+					}
+					li := strings.Count(pretty[:off], "\n")
+					d := off + shift[li]
+					res.ErrOffset = d
+					c17ParseJudge(c, "schema", deco[:d]+"?"+deco[d+1:], res)
+				}
+			}
+		}
+		// (4) type shortcuts: a union cut right after a bar (or after the blank behind it) ends early
+		if k%4 == 0 {
+			names := []string{"@cat", "@dog", "@a1", "@pet_2"}
+			mon.Shuffle(r, names)
+			u := names[0]
+			for j := 1; j < r.Range(2, 4); j++ {
+				u += mon.Pick(r, []string{" | ", "|", " |", "| ", "\t|\t"}) + names[j]
+			}
+			whole := mon.Pick(r, []string{"", "[", "{\n  \"k\": ", "[1, "}) + u
+			for cut := 1; cut <= len(whole); cut++ {
+				if whole[cut-1] == '|' || (cut >= 2 && whole[cut-2] == '|' && (whole[cut-1] == ' ' || whole[cut-1] == '\t')) {
+					c.Count("parse: union shortcuts cut after a bar", 1)
+					c17ParseJudge(c, "schema", whole[:cut], refjson.Result{EndedEarly: true})
+				}
+			}
+		}
 		if k == 0 && i < 3 {
 			c.Sample("parse position workload", map[string]any{"valid_text": text, "truncations": len(text) - 1})
 		}
